@@ -3,7 +3,8 @@
    for ANY sequence of delivered lines (any combination of altered, dropped, duplicated,
    inserted or truncated bytes yields SOME sequence of lines, or an unparsable one, which
    is [LOther]).  MD5 is the abstract function H; the two digest hypotheses are premises. *)
-From Trzsz Require Import Base.Bytes Model.Protocol Proofs.Protocol.
+From Trzsz Require Import Base.Bytes Model.Path Model.Fs Model.Names Model.Transfer Model.Protocol Model.FaultTie Proofs.Protocol Proofs.FaultTie Proofs.FaultTieFs Proofs.FaultTieSender.
+From Trzsz Require Model.Resume Model.FaultResume.
 From Coq Require Import ZArith.
 
 Section C02.
@@ -11,14 +12,23 @@ Variable digest : Type.
 Variable H : list byte -> digest.
 Variable deq : digest -> digest -> bool.
 Hypothesis deq_spec : forall a b, deq a b = true <-> a = b.
-Variable decode decode1 : list byte -> option (list byte).
+Variable decode : list (list byte) -> option (list byte).
+Variable decode1 : list byte -> option (list byte).
 
-(* receiver, protocol >= 2: acceptance implies exact size, decodable stream, matching digest *)
-Theorem C02_receiver_sound_v2 : forall ls size acc w,
-  recv_v2 digest H deq decode size acc ls = Accept w ->
-  decode (acc ++ frames_of digest ls) = Some w /\ Z.of_nat (length w) = size
-  /\ md5_of digest ls = Some (H w).
-Proof. exact (recv_v2_sound digest H deq deq_spec decode). Qed.
+(* receiver, protocol >= 2.  [early] is the schedule of the receiving pipeline: None = pipelineSaveData's
+   step = size check decides; Some k = pipelineSendAck, which reports completion as soon as the saved
+   step EQUALS the announced size, wins against it (possible when the stream is longer than announced
+   and the saved step passes through the announced size - always for size 0) and k bytes reach the file.
+   Acceptance implies: the stream decodes to w, the MD5 line is the digest of w, and either the file
+   holds w and |w| = size, or the race was won and the file holds the first k bytes of a longer w. *)
+Variable early : option nat.
+Theorem C02_receiver_sound_v2 : forall ls size acc written,
+  recv_v2 digest H deq decode early size acc ls = Accept written ->
+  exists w, decode (acc ++ frames_of digest ls) = Some w /\ md5_of digest ls = Some (H w) /\
+    ((written = w /\ Z.of_nat (length w) = size) \/
+     (exists k, early = Some k /\ written = firstn k w /\
+                (0 <= size < Z.of_nat (length w))%Z /\ (size <= Z.of_nat k)%Z /\ (k <= length w)%nat)).
+Proof. exact (recv_v2_sound digest H deq deq_spec decode early). Qed.
 
 (* receiver, protocol 1: acceptance implies matching digest; the size is only a lower bound
    (the legacy loop does not re-check it) *)
@@ -28,12 +38,30 @@ Theorem C02_receiver_sound_v1 : forall fuel ls size w0 w,
             /\ exists tail, w = w0 ++ tail.
 Proof. exact (recv_v1_sound digest H deq deq_spec decode1). Qed.
 
-(* no silent corruption for every delivered line sequence *)
-Theorem C02_no_silent_v2 : forall ls size src w,
-  recv_v2 digest H deq decode size [] ls = Accept w ->
+(* no silent corruption, protocol >= 2.  The full statement - for every delivered line sequence and
+   every schedule - is FALSE for the faithful model (C02_no_silent_v2_refuted below: a SIZE message
+   that announces less than the stream holds, e.g. 0, and the acknowledger winning: the genuine digest
+   is answered with SUCC while the file holds a prefix).  Proved: when the saver's check decides
+   (C02_no_silent_v2_no_race_partial), and for every schedule when the SIZE message delivered is the
+   true one (C02_no_silent_v2_true_size_partial). *)
+Definition C02_no_silent_v2_full : Prop := forall ls size src w,
+  recv_v2 digest H deq decode early size [] ls = Accept w ->
   (forall d, md5_of digest ls = Some d -> unforged digest H src w d) ->
   collision_free_on digest H src w -> w = src.
-Proof. exact (recv_v2_no_silent digest H deq deq_spec decode). Qed.
+
+Theorem C02_no_silent_v2_no_race_partial : forall ls size src w,
+  early = None ->
+  recv_v2 digest H deq decode early size [] ls = Accept w ->
+  (forall d, md5_of digest ls = Some d -> unforged digest H src w d) ->
+  collision_free_on digest H src w -> w = src.
+Proof. exact (recv_v2_no_silent_no_race digest H deq deq_spec decode early). Qed.
+
+Theorem C02_no_silent_v2_true_size_partial : forall ls size src written,
+  size = Z.of_nat (length src) ->
+  recv_v2 digest H deq decode early size [] ls = Accept written ->
+  (forall w d, decode (frames_of digest ls) = Some w -> md5_of digest ls = Some d -> unforged digest H src w d) ->
+  (forall w, decode (frames_of digest ls) = Some w -> collision_free_on digest H src w) -> written = src.
+Proof. exact (recv_v2_no_silent_true_size digest H deq deq_spec decode early). Qed.
 
 Theorem C02_no_silent_v1 : forall fuel ls size src w,
   recv_v1 digest H deq decode1 fuel size [] ls = Accept w ->
@@ -43,33 +71,239 @@ Proof. exact (recv_v1_no_silent digest H deq deq_spec decode1). Qed.
 
 (* sender: success only after matching per-frame acks, a final ack with step = size and an
    echoed digest equal to its own *)
-Theorem C02_sender_sound : forall sent as_ size mine,
+Theorem C02_sender_sound : forall as_ sent size mine,
   send_v2 digest deq size mine sent as_ = true ->
-  exists facks rest, as_ = facks ++ rest /\ length facks = length sent
-    /\ Forall2 (fun a n => exists s, a = AFrame digest n s) facks sent
+  exists facks rest, as_ = facks ++ rest
+    /\ Forall2 (fun a n => exists s, a = AFrame digest n s) (filter (fun a => negb (is_keep digest a)) facks) sent
     /\ send_final digest deq size mine rest = true.
 Proof. exact (send_v2_sound digest deq). Qed.
 
 Theorem C02_sender_final : forall as_ size mine, send_final digest deq size mine as_ = true ->
   exists pre d rest, as_ = pre ++ AFinal digest size :: ADigest digest d :: rest /\ d = mine
-    /\ Forall (fun a => exists s, a = AFinal digest s /\ (s < size)%Z) pre.
+    /\ Forall (fun a => a = AKeep digest \/ exists s, a = AFinal digest s /\ (s < size)%Z) pre.
 Proof. exact (send_final_sound digest deq deq_spec). Qed.
+
+(* sender, protocol 1: success only after every chunk was acknowledged by exactly its length,
+   in order, followed by an echoed digest equal to its own *)
+Theorem C02_sender_sound_v1 : forall sent as_ mine, send_v1 digest deq mine sent as_ = true ->
+  exists d rest, as_ = map (AFinal digest) sent ++ ADigest digest d :: rest /\ d = mine.
+Proof. exact (send_v1_sound digest deq deq_spec). Qed.
+
+(* ------------------------------------------------------------------------------------------
+   The whole-transfer receiver (Model/Transfer.v, the machine of C01) under ANY delivered
+   message sequence.  [ft_receive] folds [tr_receiver] over the list and records one [ft_saved]
+   per MD5 message the machine answers with SUCC:<digest> (= per file it reports as saved);
+   the recording does not influence the machine. *)
+Variable zdecomp unzl : list byte -> option (list byte).
+
+Theorem C02_transfer_ghost_transparent : forall c dest ms st g,
+  ft_feed digest H deq zdecomp unzl c dest st ms =
+    (fst (fst (ft_run digest H deq zdecomp unzl c dest st g ms)), snd (fst (ft_run digest H deq zdecomp unzl c dest st g ms))).
+Proof. exact (ft_run_feed digest H deq zdecomp unzl). Qed.
+
+(* SUCC:<digest> is only ever written in answer to an MD5 message, in the phase that waits for
+   it, when the delivered value equals the digest of what was written *)
+Theorem C02_transfer_answer_only_md5 : forall c dest st m x,
+  In (TrSuccDigest digest x) (snd (tr_receiver digest H deq zdecomp unzl c dest st m)) ->
+  exists p w d, rs_phase st = RpMd5 p w /\ m = TrMd5 digest d /\ deq d (H w) = true /\ x = H w.
+Proof. exact (ft_digest_answer digest H deq zdecomp unzl). Qed.
+
+(* the bridging lemma: per-file acceptance by the whole-transfer machine IS acceptance by the
+   per-file decision model (recv_v2 for protocol >= 2, recv_v1 for protocol 1) of exactly the
+   messages delivered for that file, with exactly the bytes the machine wrote *)
+Theorem C02_transfer_bridge : forall c dest f0 sch ms sv,
+  In sv (snd (ft_receive digest H deq zdecomp unzl c dest f0 sch ms)) ->
+  rs_phase (fv_before digest sv) = RpMd5 (fv_payload digest sv) (fv_content digest sv) /\
+  fst (tr_receiver digest H deq zdecomp unzl c dest (fv_before digest sv) (TrMd5 digest (fv_md5 digest sv))) = fv_after digest sv /\
+  In (TrSuccDigest digest (H (fv_content digest sv)))
+     (snd (tr_receiver digest H deq zdecomp unzl c dest (fv_before digest sv) (TrMd5 digest (fv_md5 digest sv)))) /\
+  ft_verdict digest H deq zdecomp unzl c sv = Accept (fv_content digest sv).
+Proof. exact (ft_receive_bridge digest H deq zdecomp unzl). Qed.
+
+Theorem C02_transfer_receiver_sound : forall c dest f0 sch ms sv,
+  In sv (snd (ft_receive digest H deq zdecomp unzl c dest f0 sch ms)) ->
+  fv_md5 digest sv = H (fv_content digest sv) /\
+  (tr_pipeline c = true -> tr_blen (fv_content digest sv) = fv_size digest sv) /\
+  (tr_pipeline c = false -> (fv_size digest sv <= tr_blen (fv_content digest sv))%N).
+Proof. exact (ft_saved_sound digest H deq deq_spec zdecomp unzl). Qed.
+
+(* ... and right after the answer the (abstract) file system holds exactly these bytes at the place of
+   the file: destination / local name / rest of the relative path *)
+Theorem C02_transfer_saved_on_fs : forall c dest f0 sch ms sv,
+  In sv (snd (ft_receive digest H deq zdecomp unzl c dest f0 sch ms)) ->
+  exists ln, ft_leaf digest c dest sv = Some (dest ++ ln :: tr_p_tail (fv_payload digest sv)) /\
+    lookup (st_fs (rs_st (fv_after digest sv))) (dest ++ ln :: tr_p_tail (fv_payload digest sv)) = Some (File (fv_content digest sv)).
+Proof. exact (ft_receive_saved_on_fs digest H deq zdecomp unzl). Qed.
+
+(* C02 for the whole transfer: whatever sequence of messages is delivered, every file the
+   receiver reports as saved has digest = the delivered MD5 value and (protocol >= 2) the
+   announced size; hence, under the two digest hypotheses, it equals the source *)
+Theorem C02_transfer_no_silent : forall c dest f0 sch ms sv src,
+  In sv (snd (ft_receive digest H deq zdecomp unzl c dest f0 sch ms)) ->
+  unforged digest H src (fv_content digest sv) (fv_md5 digest sv) ->
+  collision_free_on digest H src (fv_content digest sv) ->
+  fv_content digest sv = src.
+Proof. exact (ft_no_silent digest H deq deq_spec zdecomp unzl). Qed.
+
+(* the whole-transfer SENDER under ANY delivered answer sequence: every file it counts as done (the
+   echo of its MD5 message accepted; [ft_send] records one [ft_done] per such file) is a file for
+   which the per-file decision model says TRUE on exactly the answers delivered for it - so
+   C02_sender_sound / C02_sender_final / C02_sender_sound_v1 describe what was delivered: every
+   frame acknowledged with its length in order, a final ack with step = size, the own digest echoed *)
+Variable zcomp : list (list byte) -> list (list byte).
+Variable zl : list byte -> list byte.
+Theorem C02_transfer_sender_bridge : forall c ess ms dn,
+  In dn (snd (ft_send digest H deq zcomp zl c ess ms)) -> ft_sverdict digest H deq c dn = true.
+Proof. exact (ft_send_bridge digest H deq zcomp zl). Qed.
 End C02.
 
 Print Assumptions C02_receiver_sound_v2.
 Print Assumptions C02_receiver_sound_v1.
-Print Assumptions C02_no_silent_v2.
+Print Assumptions C02_no_silent_v2_no_race_partial.
+Print Assumptions C02_no_silent_v2_true_size_partial.
 Print Assumptions C02_no_silent_v1.
 Print Assumptions C02_sender_sound.
 Print Assumptions C02_sender_final.
+Print Assumptions C02_sender_sound_v1.
+Print Assumptions C02_transfer_ghost_transparent.
+Print Assumptions C02_transfer_answer_only_md5.
+Print Assumptions C02_transfer_bridge.
+Print Assumptions C02_transfer_receiver_sound.
+Print Assumptions C02_transfer_saved_on_fs.
+Print Assumptions C02_transfer_no_silent.
+Print Assumptions C02_transfer_sender_bridge.
 
 (* non-vacuity: with digest = the content itself, a clean two-frame exchange is accepted *)
 Example C02_nonvacuous :
-  recv_v2 (list byte) (fun x => x) list_eqb (fun x => Some x) 3 []
+  recv_v2 (list byte) (fun x => x) list_eqb (fun fs => Some (concat fs)) None 3 []
     [LData _ [1; 2]; LData _ [3]; LData _ []; LMd5 _ [1; 2; 3]] = Accept [1; 2; 3].
 Proof. vm_compute. reflexivity. Qed.
 (* and a flipped payload byte with an intact digest line is rejected *)
 Example C02_flip_rejected :
-  recv_v2 (list byte) (fun x => x) list_eqb (fun x => Some x) 3 []
+  recv_v2 (list byte) (fun x => x) list_eqb (fun fs => Some (concat fs)) None 3 []
     [LData _ [1; 7]; LData _ [3]; LData _ []; LMd5 _ [1; 2; 3]] = Reject.
 Proof. vm_compute. reflexivity. Qed.
+
+(* non-vacuity of the whole-transfer statements: protocol 2, binary frames (no table, no
+   compression), plain names, download; digest = the content itself.  A clean delivery of
+   NUM NAME SIZE DATA DATA finish MD5 records one saved file with the bytes delivered ... *)
+Example C02_transfer_nonvacuous :
+  let c := mkTrCfg 2 true false false 0 [] false in
+  let f0 : fs := [([[100]], Dir)] in
+  let ms := [TrNum _ 1; TrName _ (TrPlain [97]); TrSize _ 3; TrData _ [1; 2]; TrKeepAlive _; TrData _ [3]; TrData _ [];
+             TrMd5 _ [1; 2; 3]] in
+  let r := ft_receive (list byte) (fun x => x) list_eqb (fun x => Some x) (fun x => Some x) c [[100]] f0 [] ms in
+  (rs_phase (fst (fst r)), map (fun sv => (fv_size _ sv, fv_content _ sv, fv_md5 _ sv)) (snd r),
+   lookup (st_fs (rs_st (fst (fst r)))) [[100]; [97]]) =
+  (RpDone, [(3%N, [1; 2; 3], [1; 2; 3])], Some (File [1; 2; 3])).
+Proof. vm_compute. reflexivity. Qed.
+(* ... a flipped payload byte with an intact MD5 message records nothing and ends in the failure phase ... *)
+Example C02_transfer_flip_rejected :
+  let c := mkTrCfg 2 true false false 0 [] false in
+  let f0 : fs := [([[100]], Dir)] in
+  let ms := [TrNum _ 1; TrName _ (TrPlain [97]); TrSize _ 3; TrData _ [1; 7]; TrData _ [3]; TrData _ [];
+             TrMd5 _ [1; 2; 3]] in
+  let r := ft_receive (list byte) (fun x => x) list_eqb (fun x => Some x) (fun x => Some x) c [[100]] f0 [] ms in
+  (rs_phase (fst (fst r)), snd r) = (RpFail, []).
+Proof. vm_compute. reflexivity. Qed.
+(* ... a dropped frame (size 3 announced, 2 bytes delivered) with an MD5 message forged to the digest
+   of the damaged content is still refused by protocol >= 2 (pipelineSaveData's step = size) ... *)
+Example C02_transfer_short_rejected :
+  let c := mkTrCfg 2 true false false 0 [] false in
+  let f0 : fs := [([[100]], Dir)] in
+  let ms := [TrNum _ 1; TrName _ (TrPlain [97]); TrSize _ 3; TrData _ [1; 2]; TrData _ []; TrMd5 _ [1; 2]] in
+  let r := ft_receive (list byte) (fun x => x) list_eqb (fun x => Some x) (fun x => Some x) c [[100]] f0 [] ms in
+  (rs_phase (fst (fst r)), snd r) = (RpFail, []).
+Proof. vm_compute. reflexivity. Qed.
+(* ... and protocol 1 (every chunk decoded on its own, the loop may overshoot the announced size):
+   a duplicated chunk with an MD5 message forged to the digest of the longer content IS accepted —
+   the size is only a lower bound there, which is why the digest hypotheses carry the statement *)
+Example C02_transfer_v1_overshoot :
+  let c := mkTrCfg 0 true false false 0 [] false in
+  let f0 : fs := [([[100]], Dir)] in
+  let ms := [TrNum _ 1; TrName _ (TrPlain [97]); TrSize _ 3; TrData _ [1; 2]; TrData _ [1; 2]; TrMd5 _ [1; 2; 1; 2]] in
+  let r := ft_receive (list byte) (fun x => x) list_eqb (fun x => Some x) (fun x => Some x) c [[100]] f0 [] ms in
+  (rs_phase (fst (fst r)), map (fun sv => (fv_size _ sv, fv_content _ sv)) (snd r)) = (RpDone, [(3%N, [1; 2; 1; 2])]).
+Proof. vm_compute. reflexivity. Qed.
+
+(* ------------------------------------------------------------------------------------------
+   The resume exchange (protocol >= 3, overwrite onto a non-empty destination) is NOT covered by
+   C02_transfer_no_silent: the machine of Model/Transfer.v stops in RpUnmodelled there.  The full
+   statement - whatever answers of the hash exchange are delivered to the sender, a file whose data
+   phase the receiver accepts ends identical to the source - is FALSE for the faithful model
+   (Model/Resume.v, Model/FaultResume.v): the digest and the size of the data phase cover only what
+   is transmitted, not the kept prefix, and the two ends never compare the offsets they chose. *)
+Definition C02_resume_full : Prop :=
+  forall (B : N) (Hh : list byte -> Resume.digest) (src dst : list byte) (delivered : list Resume.ack) o,
+    (0 < B)%N ->
+    (forall x y, Hh x = Hh y -> x = y) ->                      (* even for a collision-free digest *)
+    FaultResume.fr_run B Hh src dst delivered = Some o ->
+    (* the data phase as the sender produces it for what it transmits is accepted by the receiver *)
+    recv_v2 Resume.digest Hh list_eqb (fun fs => Some (concat fs)) None (Z.of_nat (length (FaultResume.fo_sent o))) []
+      [LData _ (FaultResume.fo_sent o); LData _ []; LMd5 _ (Hh (FaultResume.fo_sent o))] = Accept (FaultResume.fo_sent o) ->
+    FaultResume.fo_final o = src.
+
+(* witness: block size 2, source 1 2 3 4 5, destination 1 2 9 9 (first block equal, second different);
+   the receiver answers (2, match) (4, no match); the FIRST answer is lost on the way: the sender
+   restarts from 0, the receiver keeps 2 bytes and appends: 1 2 1 2 3 4 5 is reported as saved *)
+Theorem C02_resume_refuted :
+  exists (B : N) (Hh : list byte -> Resume.digest) (src dst : list byte) (delivered : list Resume.ack) o,
+    (0 < B)%N /\ (forall x y, Hh x = Hh y -> x = y) /\
+    delivered = tl (FaultResume.fr_answers B Hh src dst) /\      (* one whole line dropped *)
+    FaultResume.fr_run B Hh src dst delivered = Some o /\
+    recv_v2 Resume.digest Hh list_eqb (fun fs => Some (concat fs)) None (Z.of_nat (length (FaultResume.fo_sent o))) []
+      [LData _ (FaultResume.fo_sent o); LData _ []; LMd5 _ (Hh (FaultResume.fo_sent o))] = Accept (FaultResume.fo_sent o) /\
+    FaultResume.fo_mrecv o <> FaultResume.fo_msend o /\
+    FaultResume.fo_final o <> src.
+Proof.
+  exists 2%N, (fun x => x), [1; 2; 3; 4; 5], [1; 2; 9; 9], [Resume.mkAck 4 false],
+    (FaultResume.mkFrOut 2 0 [1; 2; 3; 4; 5] [1; 2; 1; 2; 3; 4; 5]).
+  split; [reflexivity|]. split; [auto|]. split; [vm_compute; reflexivity|]. split; [vm_compute; reflexivity|].
+  split; [vm_compute; reflexivity|]. split; [discriminate | discriminate].
+Qed.
+
+Theorem C02_resume_full_refuted : ~ C02_resume_full.
+Proof.
+  intro F. destruct C02_resume_refuted as (B & Hh & src & dst & dl & o & Hb & Hi & _ & R & A & _ & N).
+  exact (N (F B Hh src dst dl o Hb Hi R A)).
+Qed.
+Print Assumptions C02_resume_refuted.
+Print Assumptions C02_resume_full_refuted.
+
+(* the sender bridge is not vacuous: protocol 2, one file of 3 bytes sent as frames of 2 and 1 bytes *)
+Example C02_transfer_sender_nonvacuous :
+  let c := mkTrCfg 2 true false false 0 [] true in
+  let e := mkTrEntry 0 [[97]] false [[1; 2; 3]] in
+  let ess := [(e, mkTrSched [2]%nat 1 false [] [])] in
+  let ms := [TrSuccInt _ 1; TrSuccName _ [97]; TrSuccInt _ 3; TrSuccAck _ 2 0; TrKeepAlive _; TrSuccAck _ 1 3; TrSuccAck _ 0 3;
+             TrSuccInt _ 2; TrSuccInt _ 3; TrSuccDigest _ [1; 2; 3]] in
+  let r := ft_send (list byte) (fun x => x) list_eqb (fun x => x) (fun x => x) c ess ms in
+  (ss_phase (fst (fst r)), map (fun dn => (fd_sent _ dn, length (fd_msgs _ dn))) (snd r)) = (SpDone, [([2; 1; 0]%N, 7%nat)]).
+Proof. vm_compute. reflexivity. Qed.
+
+(* ------------------------------------------------------------------------------------------
+   The race of the size check (protocol >= 2): witness for the refutation of C02_no_silent_v2_full.
+   Digest = the content itself (collision-free, and the MD5 message is the GENUINE one of the source
+   [1]); the SIZE message delivered says 0; the acknowledger wins before a byte is saved: the
+   receiver answers SUCC, the file is empty. *)
+Theorem C02_no_silent_v2_refuted :
+  exists (early : option nat) (ls : list (line (list byte))) (size : Z) (src w : list byte),
+    recv_v2 (list byte) (fun x => x) list_eqb (fun fs => Some (concat fs)) early size [] ls = Accept w /\
+    (forall d, md5_of (list byte) ls = Some d -> unforged (list byte) (fun x => x) src w d) /\
+    collision_free_on (list byte) (fun x => x) src w /\
+    md5_of (list byte) ls = Some src /\                 (* the digest delivered is the source's *)
+    w <> src.
+Proof.
+  exists (Some 0%nat), [LData _ [1]; LData _ []; LMd5 _ [1]], 0%Z, [1], [].
+  split; [vm_compute; reflexivity|]. split; [|split; [|split; [reflexivity | discriminate]]].
+  - intros d M. cbn in M. inversion M; subst d. unfold unforged. discriminate.
+  - unfold collision_free_on. discriminate.
+Qed.
+Print Assumptions C02_no_silent_v2_refuted.
+Theorem C02_no_silent_v2_full_refuted :
+  ~ (forall digest H deq decode early, C02_no_silent_v2_full digest H deq decode early).
+Proof.
+  intro F. destruct C02_no_silent_v2_refuted as (early & ls & size & src & w & A & U & C & _ & N).
+  exact (N (F _ _ _ _ early ls size src w A U C)).
+Qed.
+Print Assumptions C02_no_silent_v2_full_refuted.
